@@ -238,6 +238,7 @@ pub fn run(ctx: &Ctx, rep: &mut Report) {
         }
         rep.completed.push(format!("planted SNPs k={k}"));
     }
+    rep.sample(json!({"k": 15, "sites": [45, 75], "alleles": [[0, 1, 1], [1, 0, 1]], "flip": [false, true, false], "with_ref": true, "m": "0.1", "oracle": "every VCF record at a planted site with REF = ancestor base and true genotypes; pseudo-genomes agree"}));
     // well-formedness outside the premise
     if !rep.capped {
         for k in [7usize, 15, 21] {
